@@ -32,7 +32,7 @@ var c04Constructs = []string{"Split", "Buffer", "ParallelBuffer", "Map", "Proces
 	"MergeSlices", "MergeSliceIterators", "BufferedChannel", "dt.Map.Iterator", "dt.Map.Keys", "dt.Map.Values", "adt.Map.Iterator", "adt.Map.Keys", "adt.Map.Values",
 	"Map(Buffer)", "Buffer(Map)", "ParallelBuffer(Merge)", "Chain(Buffer,Split1)", "ParallelBuffer", "GenerateParallel", "ParallelBuffer"}
 
-var c04Stops = []string{"exhaust", "close", "cancel", "close-then-cancel", "close-while-parked", "concurrent-close", "cancel-while-parked"}
+var c04Stops = []string{"exhaust", "close", "cancel", "close-then-cancel", "close-while-parked", "concurrent-close", "cancel-while-parked", "cancel-in-waitgroup-window"}
 
 type c04Case struct {
 	Construct string `json:"construct"`
@@ -324,10 +324,24 @@ func c04Scenario(r *kit.Run, idx int64, rng *rand.Rand) {
 			c.Endless, c.K = true, c.N
 		}
 	}
+	wgWindow := c.Stop == "cancel-in-waitgroup-window"
+	if wgWindow {
+		// constructs whose closing goroutine parks in a WaitGroup; the
+		// source never ends so that it really parks
+		switch c.Construct {
+		case "Map", "ProcessParallel", "GenerateParallel", "MergeIterators", "ParallelBuffer", "Map(Buffer)", "ParallelBuffer(Merge)":
+			c.Endless = true
+			if c.K > c.N {
+				c.K = c.N
+			}
+		default:
+			c.Stop, wgWindow = "cancel", false
+		}
+	}
 	if c.Construct == "BufferedChannel" || c.Construct == "ProcessParallel" {
 		switch c.Stop {
 		case "exhaust":
-		case "cancel-while-parked":
+		case "cancel-while-parked", "cancel-in-waitgroup-window":
 		default:
 			c.Stop, c.Endless = "cancel", false
 		}
@@ -348,7 +362,34 @@ func c04Scenario(r *kit.Run, idx int64, rng *rand.Rand) {
 	}
 	started := 0
 	inconclusive := ""
-	kit.WithProcs(c.Procs, func() {
+	var wgHits atomic.Int64
+	withHook := func(fn func()) {
+		if !wgWindow {
+			fn()
+			return
+		}
+		kit.WithHook(func(p string) {
+			if p != "fun.WaitGroup.Wait.before-cond-wait" || wgHits.Add(1) != 1 {
+				return
+			}
+			// a waiter of the pipeline is between its predicate check and
+			// cond.Wait: the consumer's context ends exactly now
+			cancel()
+			for k := 0; k < 150; k++ {
+				kit.Yields(5)
+				st := "gone"
+				for _, g := range kit.TakeCensus().All {
+					if strings.Contains(g.Stack, "WaitGroup).Wait.func1") && strings.HasPrefix(g.State, "chan receive") {
+						st = g.State // a helper that has not noticed the cancel yet
+					}
+				}
+				if st == "gone" {
+					break
+				}
+			}
+		}, fn)
+	}
+	kit.WithProcs(c.Procs, func() { withHook(func() {
 		// the process must be clean before the scenario
 		if base, q := kit.Quiesce(c04Watchdog); !q || len(relevantLeft(base)) > 0 {
 			inconclusive = "the process is not clean before the scenario (a previous scenario leaked or is still running)"
@@ -373,7 +414,7 @@ func c04Scenario(r *kit.Run, idx int64, rng *rand.Rand) {
 			}
 		case out.done != nil:
 		default:
-			if _, err := readN(out.its[0], c.K); err != nil && !errors.Is(err, io.EOF) {
+			if _, err := readN(out.its[0], c.K); err != nil && !errors.Is(err, io.EOF) && !(wgWindow && ctx.Err() != nil) {
 				note("unexpected-error", fmt.Sprintf("reading item before the cut point returned %v", err))
 			}
 		}
@@ -455,6 +496,14 @@ func c04Scenario(r *kit.Run, idx int64, rng *rand.Rand) {
 			closeAll()
 		case "cancel":
 			cancel()
+		case "cancel-in-waitgroup-window":
+			// the hook cancels when a WaitGroup waiter reaches its park
+			// window; if none does (nothing waits), cancel here
+			if !kit.WaitUntil(200*time.Millisecond, func() bool { return wgHits.Load() > 0 }) {
+				cancel()
+			} else {
+				r.Count("waitgroup_window_cancels", 1)
+			}
 		case "close-then-cancel":
 			closeAll()
 			cancel()
@@ -549,7 +598,7 @@ func c04Scenario(r *kit.Run, idx int64, rng *rand.Rand) {
 			})
 		}
 		kit.Quiesce(c04Watchdog)
-	})
+	}) })
 	if inconclusive != "" {
 		r.Inconclusive("C04 scenario: " + inconclusive)
 		return
